@@ -664,6 +664,13 @@ class Interp:
             r = h(self, base, attr, func)
             if r is not NotImplemented:
                 return r
+        if isinstance(base, PackerV) and attr == "size":
+            try:
+                return _struct.calcsize(base.fmt)
+            except _struct.error as ex:
+                raise Raised("struct.error", e, str(ex))
+        if isinstance(base, PackerV) and attr == "format":
+            return base.fmt
         if isinstance(base, Obj):
             if attr in base.attrs:
                 return base.attrs[attr]
@@ -794,6 +801,12 @@ class Interp:
         if isinstance(a, (list, tuple)) and isinstance(op, ast.Mult) and isinstance(b, int):
             return a * b
         if isinstance(a, str) and isinstance(op, ast.Mod):
+            bb_ = tuple(_int(x) for x in b) if isinstance(b, tuple) else _int(b)
+            if (isinstance(bb_, tuple) and all(_pyconst(x) for x in bb_)) or (not isinstance(bb_, tuple) and _pyconst(bb_)):
+                try:
+                    return a % bb_
+                except Exception:
+                    pass
             return Sym("strformat", a, b)
         if isinstance(a, (str, bytes)) or isinstance(b, (str, bytes)):
             return Sym("strop", type(op).__name__, a, b)
@@ -1043,8 +1056,10 @@ class Interp:
             if r is not NotImplemented:
                 return r
         kk = _int(k)
-        if isinstance(base, Sym) and base.op == "attr" and base.args[-1] == "packer" and isinstance(kk, str):
-            return PackerV("<" + kk)
+        if isinstance(base, Sym) and base.op == "attr" and base.args[-1] == "packer":
+            if isinstance(kk, str):
+                return PackerV("<" + kk)
+            raise AnalysisError("%s: struct format %s is not a constant in the abstract domain" % (func.loc(e), show(k)[:80]))
         if isinstance(base, (list, tuple, str, bytes)) and isinstance(kk, int):
             try:
                 return base[kk]
@@ -1221,6 +1236,19 @@ class Interp:
                 return self.struct_pack(recv.fmt, args, e, func)
             if name == "calcsize":
                 return _struct.calcsize(recv.fmt)
+            if name == "iter_unpack" and len(args) == 1:
+                size = _struct.calcsize(recv.fmt)
+                buf = args[0]
+                n = buf.length if isinstance(buf, BufV) else (len(buf.bytes) if isinstance(buf, BytesV) else None)
+                if n is None or size == 0:
+                    raise AnalysisError("%s: iter_unpack over a buffer of unknown length" % func.loc(e))
+                if n % size:
+                    raise Raised("struct.error", e, "iterative unpacking requires a buffer of a multiple of %d bytes" % size)
+                out = []
+                for k in range(n // size):
+                    chunk = BufV(buf.name, buf.start + k * size, size) if isinstance(buf, BufV) else BytesV(buf.bytes[k * size:(k + 1) * size])
+                    out.append(self.struct_unpack(recv.fmt, chunk, e, func))
+                return out
         if isinstance(recv, Sym) and recv.op == "module" and recv.args[0] == "struct" or (isinstance(recv, Sym) and recv.op == "name" and recv.args[0] == "struct"):
             if name == "unpack" and isinstance(args[0], str):
                 return self.struct_unpack(args[0], args[1], e, func)
@@ -1272,9 +1300,9 @@ class Interp:
                         out.extend(sep.bytes)
                     out.extend(p.bytes)
                 return BytesV(out)
-        if isinstance(recv, (str, bytes)) and all(_pyconst(a) for a in args) and not kwargs:
+        if isinstance(recv, (str, bytes)) and all(_pyconst(_int(a)) for a in args) and not kwargs:
             try:
-                return getattr(recv, name)(*args)
+                return getattr(recv, name)(*[_int(a) for a in args])
             except Exception:
                 pass
         if isinstance(recv, str) and name == "format":
@@ -1494,6 +1522,10 @@ def _b_isinstance(it, args, kwargs, e, func):
 
 def _b_simple(name):
     def f(it, args, kwargs, e, func):
+        if name in ("list", "tuple") and len(args) == 1 and not kwargs:
+            seq = it.concrete_iter(args[0])
+            if seq is not None:
+                return list(seq) if name == "list" else tuple(seq)
         vals = [_int(a) for a in args]
         if all(_pyconst(v) or isinstance(v, (list, tuple)) and all(_pyconst(x) for x in v) for v in vals) and not kwargs:
             try:
